@@ -327,3 +327,37 @@ def mx_dir_rule(c: str) -> bool:
 def _ws_run(c):
     """known finding C04-F18: patsubst works word by word and re-joins with single blanks"""
     return '  ' in c or c.startswith('.dir ')
+
+
+def _paren_balanced(c):
+    d = 0
+    for ch in c:
+        if ch == '(':
+            d += 1
+        elif ch == ')':
+            d -= 1
+            if d < 0:
+                return False
+    return d == 0
+
+
+def mc_call_arg(c: str) -> bool:
+    """object files handed to a link recipe through $(call RULE,<files>,<output>): Make splits the
+    arguments at top-level commas and at the matching parenthesis, expands them, and the define
+    body passes $(1) to sh -- each file must arrive as one argument (names with unbalanced
+    parentheses are outside, as the property says)
+    pre: len(c) == N and _comp_ok(c) and _in_scope(c, EXCL_SRC) and _paren_balanced(c)
+    pre: not (param('kf_comma', False) and ',' in c)
+    pre: not (KF_TILDE and c[0] == '~' and SHAPE != 0 and ROOTI == 0)
+    post: _
+    """
+    p = _mkpath(c)
+    out = MK.writer(StringIO())
+    out.write_shell(Call('RULE_LD', [_mkpath('main.o', Root.builddir) if False else p, 'second.o'],
+                         'out put'))
+    text = out.stream.getvalue()
+    body = ('rec', 'ld $(1) -o $(2)')
+    line = rmake.recipe(text, (('RULE_LD', body),) + SRC + ((',', ','),))
+    if line is None:
+        return R(False)
+    return R(rsh.argv(line) == ['ld', _want(p), 'second.o', '-o', 'out put'])
